@@ -50,6 +50,10 @@ enum Delivery {
     Wire(ByteFault),
     /// sender-side deviation with both CRCs recomputed so the fault reaches the field checks
     CrcValid(HeaderVariant),
+    /// sender bug in the checksum itself: one stored CRC word replaced by what a plausible WRONG
+    /// implementation computes (other byte range, no inversion, byte order, CRC-32 instead of
+    /// CRC-32C, ...). `payload_word` false = header CRC word.
+    WrongCrc { payload_word: bool, flavour: u8 },
 }
 
 #[derive(Clone, Debug, Serialize, Deserialize, PartialEq)]
@@ -292,6 +296,56 @@ impl Ctx<'_> {
         }
     }
 
+    fn wrong_crc(&mut self, payload_word: bool, flavour: u8) {
+        let base = self.base;
+        let n = base.len();
+        if n < 28 {
+            return;
+        }
+        let declared = u16::from_le_bytes([base[14], base[15]]) as usize;
+        let ieee = |d: &[u8]| -> u32 {
+            let mut c = 0xFFFF_FFFFu32;
+            for &b in d {
+                c ^= b as u32;
+                for _ in 0..8 {
+                    c = if c & 1 == 1 { (c >> 1) ^ 0xEDB8_8320 } else { c >> 1 };
+                }
+            }
+            c ^ 0xFFFF_FFFF
+        };
+        let c = daqmodel::crc::crc32c;
+        let (at, value, kind): (usize, u32, &str) = if payload_word {
+            let padded = &base[20..n - 4];
+            let unpadded = &base[20..(20 + declared).min(n - 4)];
+            match flavour {
+                0 => (n - 4, !c(unpadded), "wrongcrc_payload_unpadded_range"),
+                1 => (n - 4, c(padded), "wrongcrc_payload_not_inverted"),
+                2 => (n - 4, (!c(padded)).swap_bytes(), "wrongcrc_payload_byte_swapped"),
+                3 => (n - 4, !ieee(padded), "wrongcrc_payload_crc32_ieee"),
+                4 => (n - 4, !c(&base[..n - 4]), "wrongcrc_payload_over_header_too"),
+                _ => (n - 4, !c(&base[16..n - 4]), "wrongcrc_payload_from_header_crc_on"),
+            }
+        } else {
+            match flavour {
+                0 => (16, !c(&base[..12]), "wrongcrc_header_12_bytes"),
+                1 => (16, c(&base[..16]), "wrongcrc_header_not_inverted"),
+                2 => (16, (!c(&base[..16])).swap_bytes(), "wrongcrc_header_byte_swapped"),
+                3 => (16, !ieee(&base[..16]), "wrongcrc_header_crc32_ieee"),
+                4 => (16, !c(&base[..14]), "wrongcrc_header_without_length"),
+                _ => (16, !c(&base[4..16]), "wrongcrc_header_without_device"),
+            }
+        };
+        let mut bytes = base.to_vec();
+        bytes[at..at + 4].copy_from_slice(&value.to_le_bytes());
+        if bytes == base {
+            return; // the wrong recipe happens to give the right word for this chunk
+        }
+        self.stats.fault(kind);
+        let d = Delivery::WrongCrc { payload_word, flavour };
+        // a stored CRC word that differs from the specified one must be rejected - always
+        self.deliver(&bytes, Some(&d), true, kind);
+    }
+
     fn crc_valid(&mut self, hv: HeaderVariant) {
         let mut spec = self.scn.spec();
         let kind;
@@ -480,6 +534,7 @@ impl Check for C03Check {
                     cx.wire(f.clone(), guaranteed, &sig);
                 }
                 Delivery::CrcValid(hv) => cx.crc_valid(hv.clone()),
+                Delivery::WrongCrc { payload_word, flavour } => cx.wrong_crc(*payload_word, *flavour),
             }
         }
         if let Some(sw) = &scn.sweep {
@@ -573,6 +628,10 @@ impl Check for C03Check {
                 }
             }
             if sw.header_variants {
+                for flavour in 0..6u8 {
+                    cx.wrong_crc(true, flavour);
+                    cx.wrong_crc(false, flavour);
+                }
                 for dev in [0u32, 1, 0xFFFF_FFFF, scn.device_id ^ 1, scn.device_id ^ 0x0100_0000, scn.device_id.swap_bytes(), r.next_u32()] {
                     cx.crc_valid(HeaderVariant::Device(dev));
                 }
